@@ -13,7 +13,7 @@ use super::sendbody::{send_body_call, send_body_flow};
 use crate::engine::{explore, pattern, validate_traces, Limits, Report, Sys, Tier, Violation};
 use crate::refmodel::chunked::decode_strict;
 
-pub const RULE: &str = "explicit-state search over the real chunked body writer (Flow::<SendBody> of a POST, Flow::<SendBody> of a GET with send-body-despite-method and no framing header, Flow::<SendBody> of a POST carrying transfer-encoding: chunked AND content-length: 0, Call::<WithBody>, and both front ends for a POST that carries its own Host and Transfer-Encoding headers so that the analysis amends nothing; a POST flow whose caller made two superfluous head writes before entering SendBody; a POST flow with Expect whose caller gave up waiting): from EVERY reachable state (key = full fingerprint + terminators emitted so far) every write(input[..i], out[..b]) of the grid i in 0..=48 u {255..257,4095..4097,10239..10241,10245,10246,10253,10254,20480,20481,30730} x b in 0..=64 u 4090..=4110 u 10240..=10270 u 20488..=20520 (thorough: i in 0..=300, b in 0..=320 in addition); and consume_direct_write(k), k in {0,1,5}, which must leave a chunked body exactly as it was; so all sequences of such calls incl. finishing writes anywhere and repeated are covered. distinct = distinct (state, input class, chunks emitted, terminator emitted) transition classes";
+pub const RULE: &str = "explicit-state search over the real chunked body writer (Flow::<SendBody> of a POST, Flow::<SendBody> of a GET with send-body-despite-method and no framing header, Flow::<SendBody> of a POST carrying transfer-encoding: chunked AND content-length: 0 / content-length: 3, of a POST announcing a Trailer field, Call::<WithBody>, and both front ends for a POST that carries its own Host and Transfer-Encoding headers so that the analysis amends nothing; a POST flow whose caller made two superfluous head writes before entering SendBody; a POST flow with Expect whose caller gave up waiting): from EVERY reachable state (key = full fingerprint + terminators emitted so far) every write(input[..i], out[..b]) of the grid i in 0..=48 u {255..257,4095..4097,10239..10241,10245,10246,10253,10254,20480,20481,30730} x b in 0..=64 u 4090..=4110 u 10240..=10270 u 20488..=20520 (thorough: i in 0..=300, b in 0..=320 in addition); and consume_direct_write(k), k in {0,1,5}, which must leave a chunked body exactly as it was; so all sequences of such calls incl. finishing writes anywhere and repeated are covered. distinct = distinct (state, input class, chunks emitted, terminator emitted) transition classes";
 
 #[derive(Clone)]
 enum W {
@@ -210,6 +210,9 @@ fn fresh(front: &str, g: &Arc<Grid>, classes: &Arc<std::sync::Mutex<std::collect
             "flow-despite" => W::Flow(super::sendbody::send_body_flow_despite("GET")),
             // both framing headers on a POST (chunked wins); the length header must not influence the writer
             "flow-te-cl0" => W::Flow(super::sendbody::send_body_flow_te_and_len(0)),
+            "flow-te-cl3" => W::Flow(super::sendbody::send_body_flow_te_and_len(3)),
+            // a request that announces a trailer field (the writer sends none: the terminator is the same five bytes)
+            "flow-trailer" => W::Flow(super::sendbody::send_body_flow_cfg(&crate::driver::ReqCfg::new("POST", "1.1", "http://a.test/p").orig("trailer", "x-checksum").orig("te", "trailers"))),
             // the caller's own Host and Transfer-Encoding: nothing for the request analysis to amend
             "flow-own-host-te" => W::Flow(super::sendbody::send_body_flow_cfg(&super::sendbody::cfg_own_host(("transfer-encoding", "chunked")))),
             // the caller kept writing in SendRequest after the head was complete (those calls must not touch the body)
@@ -223,6 +226,8 @@ fn fresh(front: &str, g: &Arc<Grid>, classes: &Arc<std::sync::Mutex<std::collect
         front_name: match front {
             "flow-despite" => "flow-despite",
             "flow-te-cl0" => "flow-te-cl0",
+            "flow-te-cl3" => "flow-te-cl3",
+            "flow-trailer" => "flow-trailer",
             "flow-own-host-te" => "flow-own-host-te",
             "flow-extra-head-writes" => "flow-extra-head-writes",
             "flow-expect-gaveup" => "flow-expect-gaveup",
@@ -236,7 +241,7 @@ fn fresh(front: &str, g: &Arc<Grid>, classes: &Arc<std::sync::Mutex<std::collect
 pub fn run(tier: Tier) -> Report {
     let g = Arc::new(grid(tier));
     let mut rep = Report::new();
-    let fronts = ["flow", "call", "flow-despite", "flow-te-cl0", "flow-own-host-te", "call-own-host-te", "flow-extra-head-writes", "flow-expect-gaveup"];
+    let fronts = ["flow", "call", "flow-despite", "flow-te-cl0", "flow-te-cl3", "flow-trailer", "flow-own-host-te", "call-own-host-te", "flow-extra-head-writes", "flow-expect-gaveup"];
     let parts: Vec<Report> = std::thread::scope(|sc| {
         let hs: Vec<_> = fronts
             .iter()
